@@ -106,6 +106,18 @@ add("C06", "stateful property-based testing of whole runs: Hypothesis-generated 
     "GP hyper-parameters generated instead of trained (factory name rebound in the algorithm module); no liveness claim (step cap => inconclusive); known findings F7, F12 listed.",
     "DESIGN.md section 3 C06")
 
+add("C02", "stateful property-based testing: every step of generated runs and directly injected single steps vs a reference transition recomputed from the displayed regions",
+    "For the seven eliminating algorithms, after every run_one_step (runs with adversarial stub, real empirical and real GP posteriors) and for directly injected "
+    "S/P/U + region configurations (identical, touching, shifted by 0.5..5 eps along the cone, single-design active sets) the set that left S without entering P is "
+    "compared in both directions with the discard set of an independent reference transition built on the C09-C11 oracles (closed-form dominance, certified cover, "
+    "per-vertex pessimistic LP; Auer: each design's own displayed half-widths).",
+    "Steps with a consulted predicate inside its numerical band are indeterminate; for VOGP-family on cones other than 2x2 the pessimistic set comes from the code's own comparison.",
+    "DESIGN.md section 2 and section 3 C02")
+add("C03", "stateful property-based testing: every step of generated runs and injected single rounds vs the reference transition (P-entries, useful set, Auer hold-back)",
+    "Same machinery as C02 for the designs entering P, monotonicity of P and the useful set U; Auer is additionally driven through single rounds with one clearly "
+    "dominated design and per-design variances with ratios up to 100 so that a discard precedes width-dependent P decisions, and through heteroscedastic real problems.",
+    "As C02; a step whose discard part already disagrees is left to C02.", "DESIGN.md section 2 and section 3 C03")
+
 PENDING = {}
 
 
